@@ -19,6 +19,7 @@ import (
 
 	"github.com/ccbrown/api-fu/graphql"
 	"github.com/ccbrown/api-fu/graphql/ast"
+	"github.com/ccbrown/api-fu/graphql/executor"
 
 	"verifharness/gqlgen"
 	"verifharness/hx"
@@ -136,9 +137,41 @@ func (h *harness) evaluate(c *Case) *Eval {
 		ev.Status, ev.Detail = "rejected", errs[0].Message
 		return ev
 	}
-	vars, ok := gqlgen.CoercedVariables(b, doc, c.OpName, c.Variables)
-	if !ok {
-		ev.Status = "uncoercible"
+	// coerced variables: by the specification's CoerceVariableValues written independently of the library
+	// (gqlgen.SpecCoerceVariables) for the generated variable shapes — the reference, the model's inputs
+	// and the expectation "request error" derive from it; other shapes fall back to the library's coercion
+	var vars map[string]interface{}
+	expectRequestError := false
+	if op, operr := executor.GetOperation(doc, c.OpName); operr == nil {
+		if sv, reqErr, supported := gqlgen.SpecCoerceVariables(op, c.Variables); supported {
+			vars, expectRequestError = sv, reqErr
+			for k, v := range c.Variables {
+				if v == nil {
+					for _, d := range op.VariableDefinitions {
+						if d.Variable.Name.Name == k && d.DefaultValue != nil {
+							h.run.Count("vars:explicit-null-for-defaulted-variable")
+						}
+					}
+				}
+			}
+		} else {
+			var ok bool
+			if vars, ok = gqlgen.CoercedVariables(b, doc, c.OpName, c.Variables); !ok {
+				ev.Status = "uncoercible"
+				return ev
+			}
+		}
+	}
+	if expectRequestError {
+		// the variables cannot be coerced: a request error (no data, one error without a path), nothing runs
+		h.run.Count("vars:request-error-expected")
+		ev.Real, ev.RealJSON = h.runReal(b, doc, c, nil)
+		if ev.Real.Crash != "" {
+			ev.Kind, ev.Oracle, ev.What = "crash", "crash", ev.Real.Crash
+			return ev
+		}
+		ev.Ref = RefResult{RequestError: true}
+		h.oracles(ev)
 		return ev
 	}
 	docSexp, stats := gqlgen.DocSexp(b, doc, vars)
